@@ -121,7 +121,24 @@ pub fn run(ctx: &'static Ctx) {
         let (shape, doc) = &vc[i as usize]; check_doc(ctx, P, "values", i, shape, doc);
     });
     ctx.guard_check("recursive and repeated dependencies explored", ctx.classes_matching(|c| c.contains("self-recursive")) > 0 && ctx.classes_matching(|c| c.contains("repeated-dependency")) > 0 && ctx.classes_matching(|c| c.contains("refers-back-to-primary")) > 0, "self-recursion, a repeated dependency and mutual recursion through the primary type all occurred");
+    // the NAMES of the referenced types: encodeType lists dependencies sorted by name, and the characters an identifier may
+    // hold sort on both sides of the delimiters of the encoding ('$' < '(' < ',' < digits < upper case < '_' < lower case):
+    // a name that is a proper prefix of another, names differing in case, names starting with '_' or '$'. Sorting rendered
+    // definitions, sorting case-insensitively or comparing with a locale gives another order for some pair
+    let names = ["Asset", "Asset$Meta", "Asset_Meta", "AssetMeta", "Asset2", "Asset$", "Asset_", "Asse", "asset", "ASSET", "A", "a", "Z", "_", "$", "_Asset", "$Asset", "B", "B0", "B_", "B$", "Ba", "BA", "Asset$2", "Person", "Mail"];
+    let primaries = ["Primary", "Asset$M", "B1"]; let nn = names.len();
+    ctx.sweep("type-names-in-sorted-order", "a primary type (3 names) referencing two struct types whose names are every ordered pair of 26 identifiers chosen around the sort order of the encoding's delimiters (proper prefixes continued by $ / _ / digit / letter, case variants, leading _ and $): encodeType, typeHash and the digests of the standard; names with $ unconstrained", (nn * nn * primaries.len()) as u64, |i| {
+        let a = names[i as usize % nn]; let b = names[(i as usize / nn) % nn]; let pr = primaries[i as usize / (nn * nn)];
+        if a == b { ctx.eval("names:same-skipped"); return; }
+        let d = simple_doc(vec![(pr.to_string(), sv(&[("x", a), ("y", &format!("{b}[]")), ("n", "uint256")])), (b.to_string(), sv(&[("w", "uint8")])), (a.to_string(), sv(&[("v", "uint256"), ("inner", b)]))], pr,
+            J::obj(vec![("x", J::obj(vec![("v", J::n("1")), ("inner", J::obj(vec![("w", J::n("2"))]))])), ("y", J::Arr(vec![J::obj(vec![("w", J::n("3"))])])), ("n", J::n("4"))]));
+        let (class, why) = refmodel::eip712::evaluate(&d); let dollar = [a, b, pr].iter().any(|n| n.contains('$'));
+        let class = match class { refmodel::json::Class::Accept(x) if dollar => refmodel::json::Class::Unc(x), c => c };
+        let rel = if b.starts_with(a) || a.starts_with(b) { "one-name-prefix-of-the-other" } else if a.eq_ignore_ascii_case(b) { "case-variants" } else { "unrelated" };
+        crate::tdcheck::check_json(ctx, P, "type-names-in-sorted-order", i, &format!("names:{rel}{}", if dollar { ",dollar" } else { "" }), &d.to_json().reordered(i % 3).to_text(), (class, why));
+    });
     crate::hist::histories(ctx, P, "document-histories", "TypedData from JSON and its three digests, a sequence on one fresh thread", crate::hist::td_ops());
     crate::tdcheck::value_pairs(ctx, P, "value-pairs");
     crate::hist::long_runs(ctx, P, "document-long-runs", "TypedData from JSON and its digests, a long run on one fresh thread", if ctx.quick() { 40 } else { 300 }, crate::hist::c08_nth());
+    { let l = crate::hist::size_ladder(ctx.thorough()); let l: Vec<usize> = l.into_iter().filter(|n| ctx.thorough() || *n <= (1 << 20) + 100).collect(); crate::hist::size_runs(ctx, P, "document-size-runs", "TypedData from JSON and its digests: string / bytes values of sizes across orders of magnitude on one fresh thread", &l, crate::hist::c08_sized(ctx.seed)); }
 }
